@@ -1,7 +1,7 @@
 (* C11 — Ontology update yields the element-wise newest definitions and nothing else.
    Statements only (proofs in Onto/Update_proofs.v); value level: object identity / later mutation
    (independence of A and B) is decided by the harness on the implementation. *)
-From EdxmlVerif Require Import Base.Prelude Onto.Tree Onto.Kinds Onto.Cmp_proofs Onto.Update Onto.Update_proofs.
+From EdxmlVerif Require Import Base.Prelude Onto.Tree Onto.Kinds Onto.Cmp_proofs Onto.Compat Onto.Compat_proofs Onto.Update Onto.Update_proofs Onto.Update_children.
 
 Section LeafKinds.
 Context {C : Type}.
@@ -50,6 +50,53 @@ Theorem C11_category_fails_on_incompatible : forall {E} (upd : E -> E -> option 
 Proof. intros E upd. exact (cat_update_error upd). Qed.
 Print Assumptions C11_category_fails_on_incompatible.
 
+(* ---- definitions WITH child elements ----
+   The scheme: when the other definition is a valid upgrade, the result takes its version and attributes, keeps / updates / adopts
+   the children, and compares EQUAL to the other definition; otherwise the definition is kept (equal / newer) or the update fails
+   (incompatible) - given that the same holds for the children. *)
+Theorem C11_children_update : forall {C} (child_attr : C -> str -> aval) childcmp childupd ks (a b : node C),
+  NoDup (map g_name (k_groups ks)) -> kids_nodup ks a -> kids_nodup ks b ->
+  child_update_ok childcmp childupd ks a b -> child_refl childcmp ks b ->
+  match cmp_node child_attr childcmp ks a b with
+  | Incompat => upd_node child_attr childcmp childupd ks a b = None
+  | Eq | Newer => upd_node child_attr childcmp childupd ks a b = Some a
+  | Older => exists r, upd_node child_attr childcmp childupd ks a b = Some r /\ n_version r = n_version b /\ n_attrs r = n_attrs b /\
+                       cmp_node child_attr childcmp ks r b = Eq /\ kids_nodup ks r
+  end.
+Proof. intros C child_attr childcmp childupd ks. exact (upd_children_spec child_attr childcmp childupd ks). Qed.
+Print Assumptions C11_children_update.
+
+(* properties with their concept associations; event types with parent, properties, relations, attachments
+   (premise: child names are unique per group, as in the SDK's dictionaries) *)
+Theorem C11_property_update : forall a b : T1, prop_wf a -> prop_wf b ->
+  match cmp_prop a b with
+  | Incompat => upd1 ks_prop ks_assoc a b = None
+  | Eq | Newer => upd1 ks_prop ks_assoc a b = Some a
+  | Older => exists r, upd1 ks_prop ks_assoc a b = Some r /\ n_version r = n_version b /\ n_attrs r = n_attrs b /\ cmp_prop r b = Eq /\ prop_wf r
+  end.
+Proof. exact prop_update_spec. Qed.
+Print Assumptions C11_property_update.
+
+Theorem C11_event_type_update : forall a b : T2, etype_wf a -> etype_wf b ->
+  match cmp_etype true a b with
+  | Incompat => upd2 (ks_etype true) etype_children a b = None
+  | Eq | Newer => upd2 (ks_etype true) etype_children a b = Some a
+  | Older => exists r, upd2 (ks_etype true) etype_children a b = Some r /\ n_version r = n_version b /\ n_attrs r = n_attrs b /\
+                       cmp_etype true r b = Eq
+  end.
+Proof. exact etype_update_spec. Qed.
+Print Assumptions C11_event_type_update.
+
+Theorem C11_event_type_update_idempotent : forall a b r : T2, etype_wf a -> etype_wf b ->
+  upd2 (ks_etype true) etype_children a b = Some r -> upd2 (ks_etype true) etype_children r b = Some r.
+Proof. exact etype_update_idempotent. Qed.
+Print Assumptions C11_event_type_update_idempotent.
+
+Theorem C11_event_type_versions_never_decrease : forall a b r : T2, etype_wf a -> etype_wf b ->
+  upd2 (ks_etype true) etype_children a b = Some r -> (n_version a <= n_version r)%Z.
+Proof. exact etype_update_monotone. Qed.
+Print Assumptions C11_event_type_versions_never_decrease.
+
 From Coq Require Import String.
 Example C11_nonvacuous :
   let a : T0 := {| n_version := 1; n_attrs := [(s2l "description", VStr (s2l "old"))]; n_groups := [] |} in
@@ -57,3 +104,28 @@ Example C11_nonvacuous :
   upd0 ks_concept a b = Some b /\ upd0 ks_concept b a = Some b /\
   upd0 ks_concept a {| n_version := 1; n_attrs := [(s2l "description", VStr (s2l "new"))]; n_groups := [] |} = None.
 Proof. vm_compute. repeat split; reflexivity. Qed.
+
+Definition wu_prop (v : Z) (opt : bool) (dn : string) : T1 :=
+  {| n_version := v; n_attrs := [(A "object-type", VStr (s2l "ot")); (A "merge", VStr (s2l "any")); (A "multivalued", VBool false);
+                                 (OPTIONAL, VBool opt); (A "description", VStr (s2l dn)); (IS_DATETIME, VBool false)];
+     n_groups := [(s2l "concepts", [])] |}.
+Definition wu_et (v : Z) (ps : list (str * T1)) (dn : string) : T2 :=
+  {| n_version := v; n_attrs := [(A "display-name-singular", VStr (s2l dn))];
+     n_groups := [(s2l "parent", []); (s2l "properties", ps); (s2l "relations", []); (s2l "attachments", [])] |}.
+Definition wu_a := wu_et 1 [(s2l "p", wu_prop 1 false "d")] "x".
+Definition wu_b := wu_et 2 [(s2l "q", wu_prop 2 true "d"); (s2l "p", wu_prop 2 true "e")] "y".
+Example C11_children_nonvacuous :
+  etype_wf wu_a /\ etype_wf wu_b /\ cmp_etype true wu_a wu_b = Older /\
+  exists r, upd2 (ks_etype true) etype_children wu_a wu_b = Some r /\ cmp_etype true r wu_b = Eq /\
+            akeys (kids r (A "properties")) = [s2l "p"; s2l "q"].
+Proof.
+  assert (forall v ps dn, NoDup (akeys ps) -> (forall k p, In (k, p) ps -> prop_wf p) -> etype_wf (wu_et v ps dn)) as W.
+  { intros v ps dn N P. split.
+    - intros g Hg. cbn in Hg. destruct Hg as [<-|[<-|[<-|[<-|[]]]]]; cbn; try constructor. exact N.
+    - intros k p Hin. cbn in Hin. apply (P k p Hin). }
+  split.
+  { apply W; [repeat constructor; cbn; intuition discriminate|]. intros k p [H|[]]. injection H as <- <-. cbn. constructor. }
+  split.
+  { apply W; [repeat constructor; cbn; intuition discriminate|]. intros k p [H|[H|[]]]; injection H as <- <-; cbn; constructor. }
+  split; [vm_compute; reflexivity|]. eexists. split; [vm_compute; reflexivity|]. split; vm_compute; reflexivity.
+Qed.
